@@ -65,6 +65,10 @@ def check_case(ctx, g, model=None, stopping=True, limit=5.0):
             continue
         r = judge(ctx, g, prune, o, stopping)
         nt = nt or bool(r)
+        if model is not None and len(g["players"]) <= 12 and stopping and g.get("_meta", {}).get("family") != "slow_reward":
+            model.add("solve", dict(wire.game_payload(g, exact=True), prune=prune, fuel=20000), expect=o,
+                      inp={"game": gen.desc(g), "prune": prune}, suite="exact.rewards",
+                      cmp=wire.measure_dev(ctx, "float_vs_exact_max_abs_dev", 2, "rewards"))
         if model is not None and len(g["players"]) <= 400:
             model.add("solve", dict(wire.game_payload(g), prune=prune), expect=o,
                       inp={"game": gen.desc(g), "prune": prune} if len(g["players"]) <= 30 else {"meta": g.get("_meta")},
